@@ -2,3 +2,5 @@
 #![allow(dead_code, unused_imports)]
 #[cfg(kani)]
 mod noop;
+#[cfg(kani)]
+mod twins;
